@@ -188,6 +188,40 @@ def rule_b(ctx):
                     r.ok(key, alpha=desc)
                 else:
                     r.violate(key, "%s passes an alpha of unchecked range (%s) to from_hsla, which does not clamp it" % (b.root, desc), c.loc())
+    # update_value (scale/adjust/change-color) is one of the roots trusted above to deliver a channel in [0, max]: check its arms.
+    uvs = [x for k, x in prog.bodies.items() if k.endswith("color::other::update_components::update_value")]
+    if len(uvs) != 1:
+        raise AnchorMissing("update_components::update_value not found")
+    uv = uvs[0]
+    arm = None
+    for sw, ap, adt, variants, rv in common.discr_switches(uv):
+        if (adt or "").endswith("UpdateComponents") and ap.root == ("arg", 4):
+            arms = common.switch_arms(uv, sw, variants)
+            arm = (sw, arms)
+    if arm is None:
+        raise AnchorMissing("update_value does not match on its UpdateComponents argument")
+    sw, arms = arm
+    # Adjust: the sum is clamped to [0, max]
+    region = common.exclusive_region(uv, sw, arms["Adjust"]) or {arms["Adjust"]}
+    rets = []
+    for c in uv.calls():
+        if c.bb in region and c.dest is not None and c.dest.local == 0 and not c.dest.proj:
+            rets.append(c)
+    other_rets = [bb for bb, i, pl, rv, st in uv.assignments() if bb in region and pl.local == 0 and not pl.proj]
+    good = len(rets) == 1 and not other_rets and (rets[0].name() or "").endswith("number::Number::clamp") and \
+        an.trace_operand(uv, rets[0].args[1]).root == ("const", "0.0") and an.trace_operand(uv, rets[0].args[2]).root == ("arg", 3)
+    if good:
+        r.ok("update_value|Adjust-is-clamped", how="(param + current).clamp(0, max)")
+    else:
+        r.violate("update_value|Adjust-is-clamped", "update_value's Adjust arm no longer returns clamp(param + current, 0, max): adjust-color can produce alpha outside [0,1] on the HSL "
+                  "path and negative whiteness/blackness on the HWB path, whose constructors do not clamp those parameters", uv.loc())
+    # Change: the parameter itself, whose bounds get_arg asserted
+    region = common.exclusive_region(uv, sw, arms["Change"]) or {arms["Change"]}
+    ch = [an.trace_operand(uv, Operand(rv["op"])) for bb, i, pl, rv, st in uv.assignments() if bb in region and pl.local == 0 and not pl.proj and rv["k"] == "use"]
+    if ch and all(x.root == ("arg", 2) for x in ch):
+        r.ok("update_value|Change-is-param")
+    else:
+        r.violate("update_value|Change-is-param", "update_value's Change arm no longer returns the (range-checked) parameter unchanged: %s" % [repr(x) for x in ch], uv.loc())
     return r
 
 
